@@ -260,6 +260,33 @@ def post_axis(C):
     return out
 
 
+# ---- initialisation: the cached normals / areas, the cell area and the volume are computed after the faces got their final winding -----------------------
+def init_stage(qn, tag, frame=None):
+    def on_call(C, st):
+        # a logical clock (integers merge across the two arms of the integrity-check branch; a tuple log would be lost at the join)
+        clk = st.ghost.get('init_clock', z3.IntVal(0))
+        st.ghost['init_t_' + tag] = clk
+        st.ghost['init_n_' + tag] = st.ghost.get('init_n_' + tag, z3.IntVal(0)) + 1
+        st.ghost['init_clock'] = clk + 1
+    return Contract(qn, PROP, frame=(frame or (lambda C: [('*', None)])), on_call=on_call, assumed=True, name=qn + ' (any effect; call recorded)')
+
+
+def setup_init_stages(eng, st, args, this):
+    st.ghost['init_clock'] = z3.IntVal(0)
+    for tag in ('orient', 'cache', 'area', 'volume'):
+        st.ghost['init_t_' + tag] = z3.IntVal(-1); st.ghost['init_n_' + tag] = z3.IntVal(0)
+
+
+def post_init_stages(C):
+    if C.outcome not in (None, 'ret', 'end'): return []
+    g = C.post_state.ghost
+    T = lambda tag: g['init_t_' + tag]; N = lambda tag: g['init_n_' + tag]
+    with_check = C.val('check_cell_integrity')
+    return [('face-cache-then-cell-area-and-volume-are-each-computed-once', z3.And(N('cache') == 1, N('area') == 1, N('volume') == 1, T('area') > T('cache'), T('volume') > T('cache'))),
+            ('the-face-cache-is-filled-after-the-orientation-pass', z3.Implies(N('orient') > 0, T('cache') > T('orient'))),
+            ('the-orientation-pass-runs-whenever-the-integrity-check-is-requested', z3.Implies(with_check, N('orient') == 1))]
+
+
 def build(reg):
     reg.add(Contract('cell::update_face_normal_and_area', PROP, signature='(face &)', pre=pre_face_update, post=post_face_update, safety={'bounds'},
                      assigns=['face.area_', 'face.normal_.dx_', 'face.normal_.dy_', 'face.normal_.dz_'], name='cell::update_face_normal_and_area(face&)'))
@@ -277,6 +304,11 @@ def build(reg):
         Contract('mat33::eigen_decomposition', PROP, frame=lambda C: [], on_call=record_matrix, ret_model=eigen_ret, name='mat33::eigen_decomposition (not under contract: any result)')]))
     reg.add(Contract('cell::check_face_winding_order', PROP, pre=pre_winding, post=post_winding,
                      assigns=['face.n1_id_', 'face.n2_id_', 'face.n3_id_', 'vec.len', 'vec.data.int', 'vec.epoch']))
+    reg.add(Contract('cell::initialize_cell_properties', PROP, post=post_init_stages, setup=setup_init_stages, name='cell::initialize_cell_properties::<order of the stages>', use=[
+        init_stage('cell::check_face_normal_orientation', 'orient'), init_stage('cell::update_all_face_normals_and_areas', 'cache'),
+        init_stage('cell::compute_area', 'area', lambda C: []), init_stage('cell::compute_volume', 'volume', lambda C: []),
+        init_stage('cell::set_local_ids', 'ids'), init_stage('cell::remove_unused_nodes', 'unused'), init_stage('cell::set_face_owner_cell', 'owner'),
+        init_stage('cell::generate_edge_set', 'edges'), init_stage('cell::is_manifold', 'manifold'), init_stage('cell::initialize_random_properties', 'random')]))
 
 
 EXPLANATION = ("Contracts on the geometric queries: update_face_normal_and_area establishes the face-cache invariant (area >= 0, (2 area)^2 = |cr|^2, "
